@@ -4,6 +4,7 @@ pub mod fsutil;
 pub mod r#gen;
 pub mod membe;
 pub mod model;
+pub mod inspect;
 pub mod props;
 pub mod repo;
 pub mod restore;
